@@ -37,46 +37,50 @@ Proof. exact @reader_no_crash_refuted. Qed.
 Print Assumptions C19_reader_no_crash_refuted.
 
 Theorem C19_crash_rndup_int :
-  Reader.out_res (Reader.open_model 0 1048576 w_rndup_int) = Reader.Crash Reader.S_rndup_int.
+  Reader.out_res (Reader.open_model 0 1048576 Reader.w_rndup_int) =
+         Reader.Crash Reader.S_rndup_int.
 Proof. exact @crash_rndup_int. Qed.
 Print Assumptions C19_crash_rndup_int.
 
 Theorem C19_crash_attr_null :
-  Reader.out_res (Reader.open_model 0 1048576 w_attr_null) =
+  Reader.out_res (Reader.open_model 0 1048576 Reader.w_attr_null) =
          Reader.Crash Reader.S_attr_memcpy_null.
 Proof. exact @crash_attr_null. Qed.
 Print Assumptions C19_crash_attr_null.
 
 Theorem C19_crash_attrV_mul :
-  Reader.out_res (Reader.open_model 0 1048576 w_attrV_mul) = Reader.Crash Reader.S_attrV_mul.
+  Reader.out_res (Reader.open_model 0 1048576 Reader.w_attrV_mul) =
+         Reader.Crash Reader.S_attrV_mul.
 Proof. exact @crash_attrV_mul. Qed.
 Print Assumptions C19_crash_attrV_mul.
 
 Theorem C19_crash_attr_xlen :
-  Reader.out_res (Reader.open_model 0 1048576 w_attr_xlen) = Reader.Crash Reader.S_attr_xlen.
+  Reader.out_res (Reader.open_model 0 1048576 Reader.w_attr_xlen) =
+         Reader.Crash Reader.S_attr_xlen.
 Proof. exact @crash_attr_xlen. Qed.
 Print Assumptions C19_crash_attr_xlen.
 
 Theorem C19_crash_shape_product :
-  Reader.out_res (Reader.open_model 0 1048576 w_shape_product) =
+  Reader.out_res (Reader.open_model 0 1048576 Reader.w_shape_product) =
          Reader.Crash Reader.S_shape_product.
 Proof. exact @crash_shape_product. Qed.
 Print Assumptions C19_crash_shape_product.
 
 Theorem C19_crash_var_calloc :
-  Reader.out_res (Reader.open_model 0 1048576 w_var_calloc) =
+  Reader.out_res (Reader.open_model 0 1048576 Reader.w_var_calloc) =
          Reader.Crash Reader.S_var_calloc_null.
 Proof. exact @crash_var_calloc. Qed.
 Print Assumptions C19_crash_var_calloc.
 
 Theorem C19_crash_check_vlen :
-  Reader.out_res (Reader.open_model 0 1048576 w_check_vlen) =
+  Reader.out_res (Reader.open_model 0 1048576 Reader.w_check_vlen) =
          Reader.Crash Reader.S_check_vlen_mul.
 Proof. exact @crash_check_vlen. Qed.
 Print Assumptions C19_crash_check_vlen.
 
 Theorem C19_crash_begin_len :
-  Reader.out_res (Reader.open_model 0 1048576 w_begin_len) = Reader.Crash Reader.S_begin_len.
+  Reader.out_res (Reader.open_model 0 1048576 Reader.w_begin_len) =
+         Reader.Crash Reader.S_begin_len.
 Proof. exact @crash_begin_len. Qed.
 Print Assumptions C19_crash_begin_len.
 
@@ -101,14 +105,14 @@ Print Assumptions C19_reader_result_consistent_refuted.
 
 Theorem C19_inconsistent_numrecs :
   exists o : Reader.opened,
-           Reader.out_res (Reader.open_model 0 1048576 w_numrecs_neg) = Reader.Ok o /\
+           Reader.out_res (Reader.open_model 0 1048576 Reader.w_numrecs_neg) = Reader.Ok o /\
            Header.h_numrecs (Reader.o_hdr o) = (-1)%Z /\ Reader.consistent o = false.
 Proof. exact @inconsistent_numrecs. Qed.
 Print Assumptions C19_inconsistent_numrecs.
 
 Theorem C19_inconsistent_dim :
   exists o : Reader.opened,
-           Reader.out_res (Reader.open_model 0 1048576 w_dim_neg) = Reader.Ok o /\
+           Reader.out_res (Reader.open_model 0 1048576 Reader.w_dim_neg) = Reader.Ok o /\
            map Header.d_size (Header.h_dims (Reader.o_hdr o)) = (-9223372036854775803)%Z :: nil /\
            Reader.consistent o = false.
 Proof. exact @inconsistent_dim. Qed.
@@ -137,17 +141,17 @@ Proof. exact @reader_cost_linear_refuted. Qed.
 Print Assumptions C19_reader_cost_linear_refuted.
 
 Theorem C19_cost_alloc_dims :
-  Base.Zlen w_alloc_dims = 48%Z /\
+  Base.Zlen Reader.w_alloc_dims = 48%Z /\
          (17179868672 <=
-          Reader.ac_alloc (Reader.out_acct (Reader.open_model 0 1099511627776 w_alloc_dims)))%Z.
+          Reader.ac_alloc (Reader.out_acct (Reader.open_model 0 1099511627776 Reader.w_alloc_dims)))%Z.
 Proof. exact @cost_alloc_dims. Qed.
 Print Assumptions C19_cost_alloc_dims.
 
 Theorem C19_cost_read_zeros :
-  Base.Zlen w_read_zeros = 48%Z /\
-         Reader.out_offset (Reader.open_model 4096 1048576 w_read_zeros) = 102400%Z /\
-         Reader.out_fetches (Reader.open_model 4096 1048576 w_read_zeros) = 25%Z /\
-         Reader.out_getsize (Reader.open_model 4096 1048576 w_read_zeros) = 48%Z.
+  Base.Zlen Reader.w_read_zeros = 48%Z /\
+         Reader.out_offset (Reader.open_model 4096 1048576 Reader.w_read_zeros) = 102400%Z /\
+         Reader.out_fetches (Reader.open_model 4096 1048576 Reader.w_read_zeros) = 25%Z /\
+         Reader.out_getsize (Reader.open_model 4096 1048576 Reader.w_read_zeros) = 48%Z.
 Proof. exact @cost_read_zeros. Qed.
 Print Assumptions C19_cost_read_zeros.
 
